@@ -71,6 +71,13 @@ def hist_counter(fid, ob):
     return panicfree.operand_field(fx, fid, ob, "a") in HIST_COUNTERS or panicfree.operand_field(fx, fid, ob, "b") in HIST_COUNTERS
 
 
+def _fields(fid, ob):
+    fx = _FX.get("fx")
+    if fx is None:
+        return None
+    return (panicfree.operand_field(fx, fid, ob, "a"), panicfree.operand_field(fx, fid, ob, "b"))
+
+
 def hist_duration(fid, ob):
     d = ob.get("detail") or {}
     fx = _FX.get("fx")
@@ -92,9 +99,10 @@ ACCEPTED = [
      "side": sc_trusted("A-HIST"), "reason": "A-HIST: per-track sample counters (stsz.sample_count, run counts of stts / ctts, chunk_samples, sample_id) advance by 1 per sample and stay below 2^32 (fewer than 2^32 - 1 samples are written to one track)"},
     {"match": (lambda fid, fn, ob, key: key.split("|")[0].startswith("Mp4TrackWriter::update_durations") and "|Overflow(Add)|" in key and hist_duration(fid, ob)), "side": sc_trusted("A-HIST"),
      "reason": "A-HIST: mdhd.duration is the sum of fewer than 2^32 durations, each below 2^32: below 2^64"},
-    {"match": K("Mp4TrackWriter::update_sample_to_chunk|Overflow(Sub)|self.sample_id, self.chunk_samples"), "side": sc_trusted("invariant chunk_samples <= sample_id"),
+    {"match": (lambda fid, fn, ob, key: key.split("|")[0].startswith("Mp4TrackWriter::") and "|Overflow(Sub)|" in key and _fields(fid, ob) == (("Mp4TrackWriter", "sample_id"), ("Mp4TrackWriter", "chunk_samples"))),
+     "side": sc_trusted("invariant chunk_samples <= sample_id"),
      "reason": "chunk_samples counts samples of the open chunk including the current one, sample_id is the number of the current sample: chunk_samples <= sample_id"},
-    {"match": K("Mp4TrackWriter::update_sample_to_chunk|Overflow(Add)|Sub(self.sample_id, self.chunk_samples).0, 1"), "side": sc_trusted("A-HIST"),
+    {"match": (lambda fid, fn, ob, key: key.split("|")[0].startswith("Mp4TrackWriter::") and "|Overflow(Add)|Sub(self.sample_id, self.chunk_samples).0, 1" in key), "side": sc_trusted("A-HIST"),
      "reason": "sample_id - chunk_samples + 1 <= sample_id < 2^32 under A-HIST"},
     {"match": K("<W>::update_mdat_size|Overflow(Sub)|mdat_end, self.mdat_pos"), "side": sc_trusted("A-POS-MONO"),
      "reason": "A-POS-MONO: the position at write_end is not before the position recorded at write_start (only chunk payloads were appended)"},
